@@ -56,13 +56,13 @@ type runner struct {
 	// SAME peer (the known findings dup-live-id / dup-live-id-queue are about exactly these ids and
 	// about exactly the failure modes listed at dupClass); foreignNew: `new` requests whose id was live
 	// for ANOTHER peer at that moment (the responder ignores those, /repo 7d665e5)
-	dupLive    map[int]bool
-	foreignNew map[int]int
-	sawMgrBlockedOn  int // peer the manager was seen blocked on (stack evidence), -1
-	lastBlockedPeer  int
-	sig              map[int]int // id index -> signalling ops since the executor's last signal check
-	pendingClose     map[int]int // peer -> subscriber notifications still running behind the parked manager
-	autoAck          int         // baseline run of the C25 oracle: this peer acknowledges at once; -1 otherwise
+	dupLive         map[int]bool
+	foreignNew      map[int]int
+	sawMgrBlockedOn int // peer the manager was seen blocked on (stack evidence), -1
+	lastBlockedPeer int
+	sig             map[int]int // id index -> signalling ops since the executor's last signal check
+	pendingClose    map[int]int // peer -> subscriber notifications still running behind the parked manager
+	autoAck         int         // baseline run of the C25 oracle: this peer acknowledges at once; -1 otherwise
 }
 
 func (r *runner) fail(class, format string, a ...interface{}) {
@@ -654,6 +654,7 @@ func (r *runner) checkAgree(p int, ps peerstate.PeerState) {
 //   - fewer outcomes than requests are reported for the id           (mode "fewer-outcomes")
 //   - the task queue merged / skipped the task: PeerState.Diagnostics / state-queue agreement
 //     complain about that id                                          (modes "diagnostics", "state-queue-mismatch")
+//
 // Every other failure mode, and every other request of the case, keeps its normal class.
 func (r *runner) dupClass(c string, ids ...int) string {
 	normal := c
